@@ -358,6 +358,18 @@ where
         Ok(())
     }
 
+    #[cfg(feature = "verif")]
+    fn verif_snapshot(connection: &Connection, session: &Session) {
+        crate::verif::push(|| crate::verif::StateSnapshot {
+            send_quota: connection.send_quota,
+            receive_maximum: connection.remote_receive_maximum,
+            max_packet_size: connection.remote_max_packet_size,
+            awaiting_ack: session.awaiting_ack.iter().map(|(k, _)| *k).collect(),
+            subscriptions: session.subscriptions.iter().map(|(k, _)| *k).collect(),
+            retransmit: session.retrasmit_queue.iter().map(|(k, _)| *k).collect(),
+        });
+    }
+
     /// Verification hook: records that the connection was lost `secs_ago` seconds ago,
     /// so that the next [run](Context::run) takes the session-resumption path.
     ///
@@ -558,10 +570,14 @@ where
                 maybe_rx_packet = pck_fut => {
                     let rx_packet = maybe_rx_packet.ok_or(SocketClosed)?;
                     Self::handle_packet(tx, connection, session, rx_packet?).await?;
+                    #[cfg(feature = "verif")]
+                    Self::verif_snapshot(connection, session);
                     pck_fut = rx.next().fuse();
                 },
                 maybe_msg = msg_fut => {
                     Self::handle_message(tx, connection, session, maybe_msg.ok_or(HandleClosed)?).await?;
+                    #[cfg(feature = "verif")]
+                    Self::verif_snapshot(connection, session);
                     msg_fut = message_queue.next();
                 }
             }
